@@ -70,7 +70,7 @@ Definition make_signers : signers :=
 Definition encode (a : atom) : atom := a.
 
 Inductive certtype := CtX509 | CtK8s | CtSsh.
-Inductive reqkind := RqPreconnect | RqLogin | RqCert (ct : certtype).
+Inductive reqkind := RqPreconnect | RqLogin | RqSecondFactor | RqCert (ct : certtype).
 Record request := mkReq { r_kind : reqkind; r_body : list atom }.
 
 (* twofa.createKeyBodyRequest: multipart with the key file and the duration field *)
@@ -84,14 +84,19 @@ Definition do_cert_request (s : signer) (ct : certtype) : request :=
 (* twofa.authenticateUser (password only): form with user name and password *)
 Definition authenticate_user : request := mkReq RqLogin [AText; ASecret].
 
-(* setupCerts: pre-connect, login, then the four certificate requests in this order *)
-Definition setup_wire (sg : signers) : list request :=
-  [ mkReq RqPreconnect [];
-    authenticate_user;
-    do_cert_request (sg_x509 sg) CtX509;
+(* totp.doTOTPAuthenticate (and the other one-time-code prompts): a form with the code *)
+Definition second_factor : request := mkReq RqSecondFactor [ASecret].
+
+(* setupCerts: pre-connect, login (with a one-time code when the server asks for a second factor),
+   then the four certificate requests in this order *)
+Definition setup_wire2 (otp : bool) (sg : signers) : list request :=
+  [ mkReq RqPreconnect []; authenticate_user ] ++
+  (if otp then [second_factor] else []) ++
+  [ do_cert_request (sg_x509 sg) CtX509;
     do_cert_request (sg_x509 sg) CtK8s;
     do_cert_request (sg_ssh sg) CtSsh;
     do_cert_request (sg_ed sg) CtSsh ].
+Definition setup_wire (sg : signers) : list request := setup_wire2 false sg.
 
 Definition is_priv (a : atom) : bool := match a with APriv _ => true | _ => false end.
 Definition wire_atoms (w : list request) : list atom := flat_map r_body w.
@@ -186,10 +191,10 @@ Fixpoint acheck (a : agent) (ops : list (aop * agent)) : bool :=
 (* ------------------------------------------------------------------ correspondence of one client run *)
 
 (* observed request: kind code and atom codes, as the harness classifies the recorded bytes
-   kind: 0 pre-connect, 1 login, 2 x509, 3 kubernetes, 4 ssh;  atoms: 10+k private of key k,
+   kind: 0 pre-connect, 1 login, 2 x509, 3 kubernetes, 4 ssh, 5 one-time code;  atoms: 10+k private of key k,
    20+k public of key k (k: 0 X509, 1 SshMain, 2 SshEd), 1 password, 0 other text *)
 Definition kind_code (k : reqkind) : N :=
-  match k with RqPreconnect => 0 | RqLogin => 1 | RqCert CtX509 => 2 | RqCert CtK8s => 3 | RqCert CtSsh => 4 end.
+  match k with RqPreconnect => 0 | RqLogin => 1 | RqCert CtX509 => 2 | RqCert CtK8s => 3 | RqCert CtSsh => 4 | RqSecondFactor => 5 end.
 Definition keyid_code (k : keyid) : N := match k with KX509 => 0 | KSshMain => 1 | KSshEd => 2 end.
 Definition atom_code (a : atom) : N :=
   match a with
@@ -226,12 +231,12 @@ Fixpoint strings_sub (a b : list string) : bool :=
   match a with [] => true | x :: r => existsb (String.eqb x) b && strings_sub r b end.
 
 (* one run of setupCerts as observed: (preference code, agent present, ed25519 issued, kubernetes
-   issued, recorded requests, files under HOME, labels of the certificates added to the agent) *)
+   issued, one-time code asked, user, recorded requests, files under HOME, labels of the certificates added to the agent) *)
 Definition pref_of_code (n : N) : pref := if n =? 0 then PrefRSA else if n =? 1 then PrefP256 else PrefP384.
-Definition run_matches (c : N * bool * bool * bool * list (N * list N) * list (string * N * bool) * list string) : bool :=
-  let '(pc, agent_ok, ed_ok, k8s_ok, wire, files, labels) := c in
+Definition run_matches (c : N * bool * bool * bool * bool * string * list (N * list N) * list (string * N * bool) * list string) : bool :=
+  let '(pc, agent_ok, ed_ok, k8s_ok, otp, user, wire, files, labels) := c in
   let sg := make_signers in
-  let sinks := install sg (pref_of_code pc) "alice" agent_ok ed_ok k8s_ok in
-  wire_eqb (map req_code (setup_wire sg)) wire &&
+  let sinks := install sg (pref_of_code pc) user agent_ok ed_ok k8s_ok in
+  wire_eqb (map req_code (setup_wire2 otp sg)) wire &&
   files_same (files_of sinks) files &&
   strings_sub (labels_of sinks) labels && strings_sub labels (labels_of sinks).
